@@ -48,6 +48,13 @@ CLAIMED.update({
              note='hook points added by commit 8b39c52 (guard ADSG_CORE_VERIF, inert otherwise); behaviours the director cannot force are skipped and counted; nested calls: model (LEVELS=2) + uncontrolled executions; native blocking = time.sleep; delivered exception class is CPython\'s business (SystemError/KeyboardInterrupt)',
              text='TLC explores every interleaving of caller, worker function, worker thread exit and timer for one call (677 states: outcome correctness, nothing running after return, caller never interrupted, nothing left behind, termination all hold for the configuration the tree implements) and for two nested calls (the tree\'s configuration violates NoneRunningAfterReturn - the recorded known finding; with a join on the exception path it holds, 864k states). All 170 complete single-call behaviours are emitted; the 109 that can be forced (completion racing expiry at each of the caller\'s steps, injection, delivery, swallow-once, die, own TimeoutError) are executed against the real run_timeout with the schedule enforced through the hook points, and TLC checks outcome = model outcome, hook order, delivery count, no worker executing after return, no interrupt in the caller, later call unaffected. An uncontrolled sweep (durations 0.1x-2.6x the limit, five function kinds, nested calls) is validated against the same clauses.'),
 })
+HIST_NOTE = 'ProcessorImpl abstracts the vector correction to "closest valid row" (its role: design-level contract + history generation); the verdict on the code comes from comparing the long-lived processor with a freshly built twin after every observing step; histories are a state cover (one shortest sequence per abstract state) of bounded depth, not all sequences; TLC + CommunityModules trusted'
+CLAIMED.update({
+ 'C05': dict(cat='model_checking', tech='implementation-shaped TLA+ model (ProcessorImpl: feasibility mask, fixed mask, cached instances) model-checked by TLC; TLC-generated operation histories replayed into the real GraphProcessor against a fresh twin; Mon_Hist trace monitor', ref='3 C05', note=HIST_NOTE,
+             text='TLC proves on problems extracted from real processors that the decode contract (Pure, Independent) holds for every operation sequence when the mask is not aliased and cached objects are not handed out, and that each of the two flaws violates it (the counterexamples are the two defects repaired in 60c3215 / efeee2d). TLC then emits one shortest operation sequence per distinct abstract state over {Decode(x,create), Enumerate, Stats, Fix, Free, Mutate, Pickle}; every sequence is replayed into a long-lived processor (complete and fast encoder), a freshly built processor with the same fixed values answers the same question after each observing step, and an observation block (all vectors, with and without create, enumeration) follows. TLC checks long-lived = fresh, create-flag independence, and that no handed-out instance is shared or carries foreign values.'),
+ 'C15': dict(cat='model_checking', tech='same histories as C05; Mon_Hist keeps the specification\'s fixed map and compares each restricted enumeration with the two filters of the unrestricted one', ref='3 C15', note=HIST_NOTE,
+             text='On the replayed Fix/Free histories TLC checks after every Enumerate that the restricted rows lie between {original rows with the fixed value} and {original rows with the fixed value or inactive} (column removed), that there are no duplicates, that n_valid(with_fixed) and the declared size describe that subset, that the listed variables are exactly the free ones, that valid fixes are accepted and out-of-range / connection-variable fixes rejected, that with nothing fixed the enumeration is the original one, and that decodes equal those of a fresh processor with the same fixed values (freeing restores exactly).'),
+})
 NA = {}
 
 def check_entry(pid):
